@@ -36,8 +36,12 @@ class C18(Check):
             "file:line, raw-call kind, fault) tuples actually fired; "
             "non-trivial = the fault fired and the oracle compared at least "
             "one stored value afterwards. Scenarios are sampled; single "
-            "faults per scenario are enumerated exhaustively; thorough adds "
-            "seeded 2-3 fault sequences and disk-full budgets")
+            "faults per scenario are enumerated exhaustively (long operations: "
+            "a fixed spread of 40 call sites); operations include naturally "
+            "refused stores, the pyramid driver, sharded store...close "
+            "sessions and HTTP fetches through fresh or cold accessors; "
+            "after a failure the same handle is retried without faults; "
+            "thorough adds seeded 2-3 fault sequences and disk-full budgets")
     assumptions = [
         "process-interruption durability model: every completed raw write "
         "is durable, what is lost is what is still in user-space buffers "
